@@ -334,7 +334,16 @@ def c05(sc, V):
             # F28: the socket-triggered start of an on-demand watcher runs detached, outside the exclusive slot; a stop or
             # restart overlapping it ends in reap_processes() waiting for workers that were spawned during the stop
             od = any(c.get("on_demand") for c in sc["watchers"]) and any(x.kind() == "sockev" and x.op[1] for x in V[:s.n])
-            f.append({"sig": "on-demand-start-overlap" if od else "event-loop-blocked", "step": s.n,
+            # F35: a stop / kill that WAITED for another kill of the same worker goes on as if the worker were dead when that
+            # kill ends — also when it ended by failing (SIGKILL refused: a worker the daemon may not signal); `_stop` then
+            # reaps a live process: blocking waitpid loop
+            nosig = unsignalable(sc, V)
+            live_nosig = [p[0] for w in s.before.watchers for p in w["procs"]
+                          if p[0] in nosig and alive(s.before.kernel.get(p[0], ("g", 0))[0])]
+            sig = "on-demand-start-overlap" if od else \
+                "blocked-reap-after-failed-kill-of-unsignalable-worker" if (live_nosig and refused_before(V, s.n, set(live_nosig))) \
+                else "event-loop-blocked"
+            f.append({"sig": sig, "step": s.n,
                       "msg": "daemon spins for ever inside one step (op %r)" % (s.op,)})
             break
         if s.slept > 40:
